@@ -1,6 +1,7 @@
 import Lean.Data.Json
 import DurableModel
 import DriverLib.SerdesGlue
+import DriverLib.BatcherGlue
 /-! JSON glue between the line protocol and the model's executable definitions (trusted). -/
 open Lean
 
@@ -83,6 +84,7 @@ def handle (c : String) (j : Json) : Json :=
   if c.startsWith "ident." then handleIdent c j
   else if c.startsWith "lock." then handleLock c j
   else if c.startsWith "serdes." then SerdesGlue.handle c j
+  else if c.startsWith "batcher." then BatcherGlue.handle c j
   else err ("unknown-component " ++ c)
 
 end DriverLib
